@@ -8,12 +8,18 @@ import Asn1Verif.Front.Ast
     src/asn/mod.rs            `Asn::try_resolve`, `Type::try_resolve`
     src/asn/{integer,size,bit_string,components,choice}.rs   `try_resolve`, `reconsider_constraints`
 
-  `value_reference` / `definition` chase imports recursively *without a visited set*.  Here the
-  chase has fuel; `chaseFuel scope = scope.length + 1` steps are supplied.  Every step after the
-  first is in a module of `scope`, and the next module depends only on the current one and the
-  name, so a chase that is still running after `scope.length + 1` steps has visited some module
-  twice and never ends: `Except.error .fuel` stands for the stack overflow (process abort) of
-  the real code, exactly.
+  `value_reference` / `definition` chase imports recursively.  The chase carries the number of
+  imports it may still follow (`value_reference_within(name, hops)`, started with
+  `hops = scope.len()`): every module after the first is a module of `scope` and the next module
+  depends only on the current one and the name, so a chase that wants to follow more than
+  `scope.len()` imports has been in some module twice and would never end — it finds nothing
+  (`None`, i.e. `FailedToResolveReference` / `FailedToResolveType` for the caller).  The mirror
+  counts calls instead of hops: `chaseFuel scope = scope.length + 1` calls, structural recursion,
+  no budget of the mirror's own.  (Before the repair the chase had no bound and a cyclic import of
+  an undefined name overflowed the stack.)
+
+  The result type of the chase stays `FR`: the chase itself never fails (`chase_total` in
+  Props/C12.lean), its callers turn `none` into their error.
 -/
 namespace Asn1Verif.Front.Syn
 open Except
@@ -24,9 +30,10 @@ def modelWithImportedItem (m : UModule) (scope : List UModule) (item : String) :
   (m.imports.find? fun i => i.what.any (· == item)).bind fun imp =>
     scope.find? fun c => (c.oid.isSome && c.oid == imp.fromOid) || c.name == imp.«from»
 
-/-- `value_reference(name)` -/
+/-- `value_reference_within(name, hops)`; the first argument is `hops + 1` (`0`: the
+    `hops.checked_sub(1)?` of the caller failed) -/
 def valueReference : Nat → UModule → List UModule → String → FR (Option UValueReference)
-  | 0, _, _, _ => .error .fuel
+  | 0, _, _, _ => .ok none
   | fuel + 1, m, scope, name =>
     match m.valueReferences.find? fun vr => vr.name == name with
     | some vr => .ok (some vr)
@@ -35,9 +42,9 @@ def valueReference : Nat → UModule → List UModule → String → FR (Option 
       | some m' => valueReference fuel m' scope name
       | none => .ok none
 
-/-- `definition(name)` -/
+/-- `definition_within(name, hops)`, likewise -/
 def definition : Nat → UModule → List UModule → String → FR (Option UDefinition)
-  | 0, _, _, _ => .error .fuel
+  | 0, _, _, _ => .ok none
   | fuel + 1, m, scope, name =>
     match m.definitions.find? fun d => d.name == name with
     | some d => .ok (some d)
@@ -46,6 +53,7 @@ def definition : Nat → UModule → List UModule → String → FR (Option UDef
       | some m' => definition fuel m' scope name
       | none => .ok none
 
+/-- `self.scope.len()` hops, i.e. `scope.len() + 1` calls -/
 def chaseFuel (scope : List UModule) : Nat := scope.length + 1
 
 /-- `ResolveScope { model, scope }` -/
@@ -64,8 +72,8 @@ def LiteralValue.toInteger : LiteralValue → Option Int
   | .integer i => some i
   | _ => none
 
-/-- `value as usize` for an `i64` -/
-def i64AsUsize (i : Int) : Nat := (i % (2 ^ 64 : Int)).toNat
+/-- `usize::try_from(value).ok()` for an `i64` (64-bit `usize`: exactly the non-negative values) -/
+def usizeTryFrom (i : Int) : Option Nat := if 0 ≤ i then some i.toNat else none
 
 /-- `impl Resolver<i64> for ResolveScope` -/
 def Scope.resolveInt (sc : Scope) : URange → FR Int
@@ -85,7 +93,11 @@ def Scope.resolveSizeVal (sc : Scope) : USz → FR Nat
     match ← sc.valueReference name with
     | some vr =>
       match vr.value.toInteger with
-      | some v => .ok (i64AsUsize v)
+      | some v =>
+        -- `usize::try_from(value).map_err(|_| Error::FailedToResolveReference(name))`
+        match usizeTryFrom v with
+        | some n => .ok n
+        | none => .error .failedToResolveReference
       | none => .error .failedToParseLiteral
     | none => .error .failedToResolveReference
 
@@ -140,10 +152,8 @@ def Scope.resolveDefault (sc : Scope) (ty : RTy) : UConst → FR LiteralValue
   | .ref name =>
     match ty with
     | .typeReference referenced _ =>
-      -- `if let Ok(Type::Enumerated(e)) = resolver.resolve(&LitOrRef::Ref(referenced))`;
-      -- a diverging chase does not come back
+      -- `if let Ok(Type::Enumerated(e)) = resolver.resolve(&LitOrRef::Ref(referenced))`
       match sc.resolveTypeRef referenced with
-      | .error .fuel => .error .fuel
       | .ok (.enumerated e) =>
         match e.variants.find? fun v => name == v.name with
         | some v => .ok (.enumeratedVariant referenced v.name)
